@@ -45,7 +45,7 @@ THEOREMS = [
 
 RULE = (
     "cases = a query-shape sweep (an input block and a collateral block whose query states every subset of address / "
-    "min_amount / ref, each as a literal or a parameter, single and multi: 108 templates), a redex sweep (small "
+    "min_amount / ref, each as a literal or a parameter - one of them of a custom (alias) type -, single and multi: 144 templates), a redex sweep (small "
     "templates: every rewrite rule of the reducer - add, sub, negate, property access "
     "on list / struct / tuple / map literals, positions a multiple of 2^64 away from real ones included - met by every class of operand: a constant, a closed expression that folds, "
     "a pending parameter, an expression that folds once the argument is there, a substituted parameter, NoOp wrappers) "
